@@ -70,7 +70,19 @@ theorem inv_mono {used used' : List String} {s : St} (h : Inv used s) (hs : ∀ 
   { h with usedQ := fun x hx => hs x (h.usedQ x hx) }
 
 def Sim (used : List String) (s : St) (e : Ev) : Prop :=
-  Mon.event (absM s) e (step s e).2 = some (absM (step s e).1) ∧ Inv (usedAfter used e) (step s e).1
+  Mon.eventCore (absM s) e (step s e).2 = some (absM (step s e).1) ∧ Inv (usedAfter used e) (step s e).1
+
+/-- the progress clause holds in every state satisfying the invariant -/
+theorem quiet_absM {used : List String} {s : St} (hI : Inv used s) : (absM s).quiet = true := by
+  unfold Mon.quiet absM
+  cases hpa : s.paused with
+  | true => simp
+  | false =>
+    by_cases hp : s.pend = ""
+    · cases hrun : s.running with
+      | true => simp [hp, hI.idle hrun hpa hp]
+      | false => simp [hp, (hI.stop hrun).1]
+    · simp [hp]
 
 theorem nodup_snoc {l : List String} {x : String} (h : l.Nodup) (hx : x ∉ l) : (l ++ [x]).Nodup := by
   rw [List.nodup_append]
@@ -99,13 +111,13 @@ theorem sim_send (used : List String) (s : St) (id : String) (hI : Inv used s)
   simp only [step, Bool.false_eq_true, if_false, usedAfter]
   cases running with
   | false =>
-    refine ⟨by simp [Mon.event, Mon.obsList, Mon.obs], ?_⟩
+    refine ⟨by simp [Mon.eventCore, Mon.obsList, Mon.obs], ?_⟩
     constructor <;> simp_all
   | true =>
     simp only [Bool.not_true, Bool.false_eq_true, if_false]
     cases hrej : Gen.Guards.queuePushRejects (↑q.length) cap with
     | true =>
-      refine ⟨by simp [Mon.event, Mon.obsList, Mon.obs], ?_⟩
+      refine ⟨by simp [Mon.eventCore, Mon.obsList, Mon.obs], ?_⟩
       constructor <;> simp_all
     | false =>
       simp only [Bool.false_eq_true, if_false]
@@ -123,7 +135,7 @@ theorem sim_send (used : List String) (s : St) (id : String) (hI : Inv used s)
         have hp : pend ≠ "" := by simpa using rdyIff
         have hq : q.head? = some pend := pendHd hp
         rw [pumpTail_idle _ _ (Or.inr rfl)]
-        refine ⟨by simp [Mon.event, Mon.obsList, Mon.obs, absM, hp, tail_snoc hq], ?_⟩
+        refine ⟨by simp [Mon.eventCore, Mon.obsList, Mon.obs, absM, hp, tail_snoc hq], ?_⟩
         constructor <;> simp_all [head_snoc]
       | true =>
         have hp : pend = "" := by simpa using rdyIff
@@ -132,7 +144,7 @@ theorem sim_send (used : List String) (s : St) (id : String) (hI : Inv used s)
         rw [pumpTail_closed (q ++ [id]) _ _ rfl (by simp) rfl rfl rfl hne']
         cases paused with
         | true =>
-          refine ⟨by simp [Mon.event, Mon.obsList, Mon.obs, absM], ?_⟩
+          refine ⟨by simp [Mon.eventCore, Mon.obsList, Mon.obs, absM], ?_⟩
           constructor <;> simp_all
         | false =>
           have hq : q = [] := by simpa using idle
@@ -140,10 +152,10 @@ theorem sim_send (used : List String) (s : St) (id : String) (hI : Inv used s)
           simp only [List.nil_append, Bool.false_eq_true, or_self, if_false]
           by_cases hw : canWrite { running := true, connected := connected, writeFails := writeFails, paused := false, cap := cap, q := [id], pend := "", rdy := true, tok := 0, armed := armed, dead := false } = true
           · simp only [hw, if_true]
-            refine ⟨by simp [Mon.event, Mon.obsList, Mon.obs, absM, hid], ?_⟩
+            refine ⟨by simp [Mon.eventCore, Mon.obsList, Mon.obs, absM, hid], ?_⟩
             constructor <;> simp_all
           · simp only [hw, Bool.false_eq_true, if_false]
-            refine ⟨by simp [Mon.event, Mon.obsList, Mon.obs, absM], ?_⟩
+            refine ⟨by simp [Mon.eventCore, Mon.obsList, Mon.obs, absM], ?_⟩
             constructor <;> simp_all
 
 /-- the common continuation of reply / time-out / resume: slot freed, token put, pump dispatches -/
@@ -201,12 +213,12 @@ theorem sim_reply (used : List String) (s : St) (id : String) (isErr : Bool) (hI
                 q := h :: r, pend := h, rdy := rdy, tok := 0, armed := armed, dead := false })
         rfl rfl rfl rfl (by simp_all) (by simp_all) (by simp_all) (by simpa using pausedA)
         (by cases isErr <;> simp [Mon.obsList, Mon.obs, absM, hp])
-      simp only [Mon.event, List.singleton_append] at key ⊢
+      simp only [Mon.eventCore, List.singleton_append] at key ⊢
       exact key
   · -- a foreign id: discarded, nothing changes (C09)
     have : pendHit s.pend id = false := by simp [hhit]
     simp only [step, hI.alive, Bool.false_eq_true, if_false, this, Bool.not_false, if_true]
-    exact ⟨by simp [Mon.event, Mon.obsList], hI⟩
+    exact ⟨by simp [Mon.eventCore, Mon.obsList], hI⟩
 
 theorem sim_wait (used : List String) (s : St) (hI : Inv used s) : Sim used s .wait := by
   unfold Sim
@@ -218,12 +230,12 @@ theorem sim_wait (used : List String) (s : St) (hI : Inv used s) : Sim used s .w
   simp only [step, Bool.false_eq_true, if_false]
   cases running with
   | false =>
-    refine ⟨by simp [Mon.event, Mon.obsList], ?_⟩
+    refine ⟨by simp [Mon.eventCore, Mon.obsList], ?_⟩
     constructor <;> simp_all
   | true =>
     cases armed with
     | false =>
-      refine ⟨by simp [Mon.event, Mon.obsList], ?_⟩
+      refine ⟨by simp [Mon.eventCore, Mon.obsList], ?_⟩
       constructor <;> simp_all
     | true =>
       have hnp : paused = false := by cases paused <;> simp_all
@@ -233,7 +245,7 @@ theorem sim_wait (used : List String) (s : St) (hI : Inv used s) : Sim used s .w
       simp only [Bool.not_true, Bool.or_self, Bool.false_eq_true, if_false, pendHas_eq]
       by_cases hp : pend = ""
       · subst hp
-        refine ⟨by simp [Mon.event, Mon.obsList, absM], ?_⟩
+        refine ⟨by simp [Mon.eventCore, Mon.obsList, absM], ?_⟩
         constructor <;> simp_all
       · have hq := pendHd hp
         cases q with
@@ -251,7 +263,7 @@ theorem sim_wait (used : List String) (s : St) (hI : Inv used s) : Sim used s .w
                     q := h :: r, pend := h, rdy := rdy, tok := 0, armed := true, dead := false })
             rfl rfl rfl rfl (by simp_all) (by simp_all) (by simp_all) (by simp)
             (by simp [Mon.obsList, Mon.obs, absM, hp])
-          simp only [Mon.event, List.singleton_append, decide_true] at key ⊢
+          simp only [Mon.eventCore, List.singleton_append, decide_true] at key ⊢
           exact key
 
 theorem sim_disconnect (used : List String) (s : St) (hI : Inv used s)
@@ -263,7 +275,7 @@ theorem sim_disconnect (used : List String) (s : St) (hI : Inv used s)
   simp only at alive tok0 pendHd rdyIff idle nodup nonE usedQ stop armedP pausedA hrun
   subst alive hrun
   simp only [step, Bool.false_eq_true, if_false, Bool.not_true, usedAfter]
-  refine ⟨by simp [Mon.event, Mon.obsList, absM], ?_⟩
+  refine ⟨by simp [Mon.eventCore, Mon.obsList, absM], ?_⟩
   constructor <;> simp_all
 
 theorem sim_reconnect (used : List String) (s : St) (hI : Inv used s)
@@ -287,16 +299,16 @@ theorem sim_reconnect (used : List String) (s : St) (hI : Inv used s)
       [] { paused := false, waiting := q, out := none }
       rfl rfl rfl rfl (by simp_all) (by simp_all) (by simp_all) (by simp)
       (by simp [Mon.obsList])
-    simp only [Mon.event, List.nil_append, absM] at key ⊢
+    simp only [Mon.eventCore, List.nil_append, absM] at key ⊢
     simpa using key
   · simp only [hp, ne_eq, not_false_eq_true, decide_true, if_true]
-    refine ⟨by simp [Mon.event, Mon.obsList, absM, hp], ?_⟩
+    refine ⟨by simp [Mon.eventCore, Mon.obsList, absM, hp], ?_⟩
     constructor <;> simp_all
 
 theorem sim_writeFail (used : List String) (s : St) (b : Bool) (hI : Inv used s) : Sim used s (.writeFail b) := by
   unfold Sim
   simp only [step, hI.alive, Bool.false_eq_true, if_false, usedAfter]
-  refine ⟨by simp [Mon.event, Mon.obsList, absM], ?_⟩
+  refine ⟨by simp [Mon.eventCore, Mon.obsList, absM], ?_⟩
   obtain ⟨alive, tok0, pendHd, rdyIff, idle, nodup, nonE, usedQ, stop, armedP, pausedA⟩ := hI
   constructor <;> simp_all
 
@@ -309,10 +321,10 @@ theorem sim_stop (used : List String) (s : St) (hI : Inv used s) : Sim used s .s
   simp only [step, Bool.false_eq_true, if_false, usedAfter]
   cases running with
   | false =>
-    refine ⟨by simp [Mon.event, Mon.obsList, absM], ?_⟩
+    refine ⟨by simp [Mon.eventCore, Mon.obsList, absM], ?_⟩
     constructor <;> simp_all
   | true =>
-    refine ⟨by simp [Mon.event, Mon.obsList, Mon.obs, absM], ?_⟩
+    refine ⟨by simp [Mon.eventCore, Mon.obsList, Mon.obs, absM], ?_⟩
     constructor <;> simp_all
 
 theorem sim_start (used : List String) (s : St) (hI : Inv used s)
@@ -327,7 +339,7 @@ theorem sim_start (used : List String) (s : St) (hI : Inv used s)
   have hq : q = [] ∧ pend = "" := by simpa using stop
   obtain ⟨hq, hp⟩ := hq
   subst hq hp
-  refine ⟨by simp [Mon.event, Mon.obsList, absM], ?_⟩
+  refine ⟨by simp [Mon.eventCore, Mon.obsList, absM], ?_⟩
   constructor <;> simp_all
 
 /-- every event preserves the invariant and is accepted by the specification monitor -/
@@ -353,7 +365,7 @@ theorem history_accepted (evs : List Ev) :
     intro used s hI hw
     simp only [wf, Bool.and_eq_true] at hw
     have ⟨h1, h2⟩ := step_sim used s e hI hw.1
-    simp only [history, Mon.accepts, h1]
+    simp only [history, Mon.accepts, Mon.event, h1, quiet_absM h2, if_true]
     exact ih _ _ h2 hw.2
 
 end CDS
